@@ -1,5 +1,6 @@
 import Model.C16
 import Model.C16Partition
+import Model.C16Ctor
 import Generated.C16
 import Proofs.C16
 /-!
@@ -111,6 +112,27 @@ theorem queues_wellformed (n z : Nat) (hz : z < maxZonesCount) (s : State) (h : 
 `Err.fuel` is not a possible outcome, so the bound does not change what the model computes. -/
 theorem fuel_unreachable (n z : Nat) : genUpTo z n ≠ .error .fuel := PfC16.genUpTo_no_fuel n
 
+/-!
+#### Does generation succeed?  (every contract theorem below is conditional on `… = .ok _`)
+
+Proved for **all** `n`: the generator never ends in `panic` (no nil token queue is dereferenced) nor
+in `fuel`. Not proved for all `n`: that it does not end in `outOfDomain`, `cannotAdd` or
+`cannotCalc` - these depend on the arithmetic of the run (`optimalTokenOwnership ≥ 8`, the largest
+instance being large enough, `curr ≤ 2^32/(n+1)`). Totality is kernel-checked for `n ≤ 6`
+(`generation_total_table`) and executed for ids up to 2000 (judge rule `generation-failed`).
+-/
+
+/-- all `n`, all zones: a nil token queue is never dereferenced. -/
+theorem panic_unreachable (n z : Nat) : genUpTo z n ≠ .error .panic := PfC16.genUpTo_no_panic n
+
+/-- totality in the kernel-checked range: for `z < 8`, `n ≤ 6` the 512 tokens of instance `n` exist
+and are strictly increasing (no duplicate), and `GenerateTokens` returns for every non-negative
+request and every taken set. -/
+theorem generation_total_table (z n : Nat) (hz : z < maxZonesCount) (hn : n ≤ PfC16.tableN) :
+    ∃ all, generateAllTokens n z = .ok all ∧ all.length = 512 ∧ all.Pairwise (· < ·) ∧
+      ∀ (requested : Int) (taken : List Nat), 0 ≤ requested →
+        ∃ ts, generateTokens n z requested taken = .ok ts := PfC16.generation_total_table hz hn
+
 /-- the instance queue holds exactly the instances `0..n`, each once: its keys are distinct (the
 token queues' keys are the tokens, distinct by `instances_disjoint_cond`). -/
 theorem inst_keys_distinct (n z : Nat) (s : State) (h : genUpTo z n = .ok s) :
@@ -128,7 +150,12 @@ theorem prefix_determinism (n k z : Nat) (hk : k ≤ n) (m : List (List Nat))
 generator of any later instance `n` attributes to `k`. -/
 theorem all_tokens_agree (n k z : Nat) (hk : k ≤ n) (m : List (List Nat))
     (h : tokensByInstanceID n z = .ok m) :
-    generateAllTokens k z = .ok (sortTokens (m.getD k [])) := PfC16.all_tokens_agree hk h
+    m.length = n + 1 ∧ ∃ row, m[k]? = some row ∧ generateAllTokens k z = .ok (sortTokens row) := by
+  have hl := PfC16.tokens_length h
+  have hk' : k < m.length := by omega
+  refine ⟨hl, m[k], List.getElem?_eq_getElem hk', ?_⟩
+  have := PfC16.all_tokens_agree hk h
+  simpa [List.getD_eq_getElem?_getD, List.getElem?_eq_getElem hk'] using this
 
 /-- *Count and zone congruence*: the map has an entry for each of the instances `0..n`, each entry
 has 512 tokens, every token is a `uint32` congruent to the zone index modulo `maxZonesCount`. -/
@@ -144,7 +171,8 @@ theorem zones_disjoint (n1 n2 z1 z2 : Nat) (hz1 : z1 < maxZonesCount) (hz2 : z2 
     (h2 : tokensByInstanceID n2 z2 = .ok m2) : ∀ l1 ∈ m1, ∀ l2 ∈ m2, ∀ t ∈ l1, t ∉ l2 :=
   PfC16.zones_disjoint hz1 hz2 hne h1 h2
 
-/-- the sorted 512 tokens of an instance. -/
+/-- the sorted 512 tokens of an instance (`≤` only: duplicates are excluded by `all_tokens_strict`,
+under the side condition). -/
 theorem all_tokens_contract (n z : Nat) (hz : z < maxZonesCount) (all : List Nat)
     (h : generateAllTokens n z = .ok all) :
     all.length = 512 ∧ all.Pairwise (· ≤ ·) ∧ ∀ t ∈ all, t % 8 = z ∧ t < 4294967296 :=
@@ -310,7 +338,17 @@ theorem spread_gen_contract (n z : Nat) (requested : Int) (taken ts : List Nat)
     cases this
   · rw [he, List.length_take]
 
-/-- it returns for every non-negative request whenever the instance's tokens can be generated. -/
+/-- *No duplicate* needs the side condition (the theorem above only gives `≤`): if it has not
+fired for instance `n`, the returned tokens are strictly increasing. (Unconditional for `n ≤ 6`:
+`generation_total_table`.) -/
+theorem spread_gen_contract_strict (n z : Nat) (hz : z < maxZonesCount) (s : State)
+    (hs : genUpTo z n = .ok s) (hd : s.degenerate = false) (requested : Int) (taken ts : List Nat)
+    (h : generateTokens n z requested taken = .ok ts) : ts.Pairwise (· < ·) := by
+  obtain ⟨all, ha, _, _, hsub, _⟩ := spread_gen_contract n z requested taken ts h
+  exact (all_tokens_strict n z hz s hs hd all ha).sublist hsub
+
+/-- it returns for every non-negative request whenever the instance's tokens can be generated
+(which is proved for `n ≤ 6`, `generation_total_table`, and executed beyond). -/
 theorem spread_gen_total (n z : Nat) (requested : Int) (taken all : List Nat)
     (ha : generateAllTokens n z = .ok all) (hr : 0 ≤ requested) :
     ∃ ts, generateTokens n z requested taken = .ok ts := PfC16.generateTokens_total taken ha hr
@@ -327,7 +365,8 @@ example : ∃ ts, generateTokens 1 3 5 [11, 19] = .ok ts ∧ ts.length ≤ 5 ∧
     obtain ⟨all, _, _, _, _, _, hu, hl⟩ := spread_gen_contract 1 3 5 [11, 19] ts hts
     exact ⟨ts, hts, by rw [hl]; exact Nat.min_le_left _ _, hu⟩
 
-/-- `AddPartition(id)` stores exactly the sorted 512 tokens of instance `id` in zone 0 ... -/
+/-- `AddPartition(id)` stores exactly the sorted (`≤`; strictly under the side condition, see
+`all_tokens_strict`) 512 tokens of instance `id` in zone 0 ... -/
 theorem partition_tokens (id : Nat) (ts : List Nat) (h : partitionTokens id = .ok ts) :
     generateAllTokens id 0 = .ok ts ∧ ts.length = 512 ∧ ts.Pairwise (· ≤ ·) := by
   have h0 := PfC16.partition_eq (by decide) h
@@ -379,5 +418,22 @@ example : ∃ d', addPartition {} 1 2 1700000000 = .ok d' := by
     unfold generateAllTokens tokensByInstanceID; rw [hs]; rfl
   obtain ⟨ts, hts⟩ := spread_gen_total 1 0 512 [] _ ea (by decide)
   exact add_partition_total {} 1 2 1700000000 (by decide) ts hts
+
+/-! ### `NewSpreadMinimizingTokenGenerator`: only configured zones get a zone index -/
+
+/-- if the constructor succeeds, the zone list has 1..8 entries, the instance's zone IS one of the
+configured zones and the zone index is its position in the sorted list - a zone that is not
+configured (misspelt, empty) is refused, wherever it would sort. -/
+theorem ctor_zone_index (inst zone : String) (zones : List String) (n k : Nat)
+    (h : newGenerator inst zone zones = .ok (n, k)) :
+    0 < zones.length ∧ zones.length ≤ maxZonesCount ∧ (sortZones zones)[k]? = some zone ∧
+      zone ∈ zones ∧ k < zones.length := PfC16.newGenerator_ok h
+
+/-- the lookup on an already sorted list: found at its position / refused when absent, also when
+the name sorts between two configured zones. -/
+example : findZoneID "zone-b" ["zone-a", "zone-b", "zone-c"] = .ok 1 ∧
+    findZoneID "zone-ab" ["zone-a", "zone-b", "zone-c"] = .error .zoneNotValid ∧
+    findZoneID "" ["zone-a", "zone-b", "zone-c"] = .error .zoneNotValid := by
+  refine ⟨?_, ?_, ?_⟩ <;> decide
 
 end PC16
